@@ -338,6 +338,42 @@ def std_position_ok(crate, body_name, callee, term):
         return bool(args) and (lit(args[0]) or 0) > 0
     if last in ("insert",) and "Vec" in callee:
         return bool(args) and lit(args[0]) == 0
+    if last in ("remove", "swap_remove") and "Vec" in callee and args:
+        # `if let Some(i) = v.iter().position(..) { v.remove(i); .. }`: the index was just found in the same vector (forward
+        # iteration, nothing in between)
+        def _place(e):
+            e = _peel(e)
+            if e is None:
+                return None
+            if e.get("k") == "Field":
+                b_ = _place(e.get("base"))
+                return None if b_ is None else b_ + "." + e.get("name", "?")
+            if e.get("k") == "Path" and e.get("res") == "local":
+                return "#%s" % e.get("hid")
+            return None
+        a0 = _peel(args[0])
+        tgt = _place(n.get("recv"))
+        if not a0 or a0.get("k") != "Path" or a0.get("res") != "local" or tgt is None:
+            return False
+        for node, ps in common.hir_walk_p(b["hir"]):
+            if node is n:
+                for p_ in reversed(ps):
+                    if p_.get("k") == "If" and (p_.get("c") or {}).get("k") == "LetCond":
+                        lc = p_["c"]
+                        init = _peel(lc.get("init"))
+                        pat = lc.get("pat") or {}
+                        binds = [x for x in common.hir_walk(pat) if x.get("k") == "Binding" and x.get("hid") == a0.get("hid")]
+                        if not binds or not init or init.get("k") != "MethodCall" or init.get("name") != "position":
+                            return False
+                        it = _peel(init.get("recv"))
+                        if not it or it.get("k") != "MethodCall" or it.get("name") != "iter" or _place(it.get("recv")) != tgt:
+                            return False
+                        # first thing done in the branch
+                        then = p_.get("t") or {}
+                        first = (then.get("stmts") or [{}])[0].get("e") if then.get("stmts") else then.get("expr")
+                        return first is not None and any(x is n for x in common.hir_walk(first)) and not [x for x in common.hir_walk(first) if x.get("k") == "MethodCall" and x is not n and _place(x.get("recv")) == tgt]
+                return False
+        return False
     if last in ("split_at", "split_at_mut", "rotate_left", "rotate_right", "split_off") and "str" not in callee and "String" not in callee:
         if bool(args) and lit(args[0]) == 0:
             return True
